@@ -82,8 +82,21 @@ Definition vcols (l:list (bytes * list bytes)) : val :=
 Fixpoint lstrip (s:bytes) : bytes :=
   match s with c :: t => if c =? BLANK then lstrip t else s | [] => [] end.
 
-Definition orig_text (s:bytes) : bytes :=
-  if any (writer_special [LF]) s then s else lstrip s.
+(* the reader drops an unquoted CR that immediately precedes the LF of the line end (CRLF, C05) *)
+Fixpoint strip_cr_end (s:bytes) : bytes :=
+  match s with
+  | [] => []
+  | c :: t => match t with [] => if c =? CR then [] else [c] | _ => c :: strip_cr_end t end
+  end.
+
+Definition orig_text (last:bool) (s:bytes) : bytes :=
+  if any (writer_special [LF]) s then s else lstrip (if last then strip_cr_end s else s).
+
+Fixpoint orig_cols (l:list (bytes * list bytes)) : list (bytes * list bytes) :=
+  match l with
+  | [] => []
+  | p :: t => (fst p, map (orig_text (match t with [] => true | _ => false end)) (snd p)) :: orig_cols t
+  end.
 
 Definition kind_of (fk:list (field * Z)) (n:name) : Z :=
   match find (fun p => beq_bytes (fst (fst p)) n) fk with Some p => snd p | None => 0 end.
@@ -98,7 +111,7 @@ Definition reimport_pred (v:variant) (fk:list (field * Z)) (fr:frame) (rf:rowfil
     else if match spec_rows fr rf cf with [] => true | _ => false end
             && existsb (fun n => let k := kind_of fk n in (k =? 1) || (k =? 2)) (spec_names fr rf cf)
          then VErr K_RAISE E_ValueError      (* transform_int / transform_float on zero rows *)
-    else vcols (map (fun p => (fst p, map orig_text (snd p))) (spec_columns fr rf cf))
+    else vcols (orig_cols (spec_columns fr rf cf))
   end.
 
 Definition entry_C18 (v:val) : val :=
